@@ -33,7 +33,11 @@ def gen_leaf(rng):
     for _ in range(rng.randint(5, 25)):
         r = rng.random()
         if flying:
-            if r < 0.5:
+            if r < 0.08:
+                ops.append(["cancel"])          # the pending job is withdrawn (future.cancel()): it never executes
+                ops.append(["complete"])        # (a twin in which nothing was withdrawn lets its job finish)
+                flying = False
+            elif r < 0.5:
                 ops.append(["complete"])
                 flying = None   # unknown: depends on hit/miss; generator stays conservative
                 flying = False
@@ -135,7 +139,10 @@ def _vis(n):
     return [[_slot(n.inputs.a.value), _slot(n.inputs.b.value)], _slot(n.outputs.y.value), bool(n.running), bool(n.failed)]
 
 
-def leaf_trace(case, use_cache):
+def leaf_trace(case, use_cache, cancel_mask=None, cancel_log=None):
+    """cancel_log (out): for every `cancel` op, whether this twin had a job out and withdrew it; cancel_mask (in): the
+    other twin's log -- a withdrawal is applied in lock-step only where BOTH twins have a job out (the cached twin's
+    submit may have been served from the cache, in which case there is nothing to withdraw on either side)"""
     import concurrent.futures as cf
     from pyiron_workflow.mixin.run import ReadinessError
     nodes.reset()
@@ -148,7 +155,7 @@ def leaf_trace(case, use_cache):
     n.recovery = None
     if not use_cache:
         n.use_cache = False
-    ex = nodes.ManualExecutor()
+    ex = nodes.ManualExecutor(pending=True)
     tr = []
     for op in case["ops"]:
         out = "done"
@@ -169,6 +176,14 @@ def leaf_trace(case, use_cache):
                     fut = n.future
                     ex.complete(fut)
                     out = ["UserExc", 1] if fut.exception() is not None else ["val", _slot(n.outputs.y.value)]
+            elif op[0] == "cancel":
+                k = len(cancel_log) if cancel_log is not None else None
+                can = n.future is not None and not n.future.done()
+                allowed = cancel_mask is None or (k is not None and k < len(cancel_mask) and cancel_mask[k])
+                if cancel_log is not None:
+                    cancel_log.append(bool(can))
+                if can and allowed:
+                    out = ["cancelled", bool(ex.cancel(n.future))]
             elif op[0] == "clear":
                 n.failed = False
         except ReadinessError:
@@ -372,7 +387,9 @@ def wfd_trace(case, use_cache):
 # ---- framework API -----------------------------------------------------------------------------
 def run_impl(case):
     if case["fam"] == "leaf":
-        return {"cached": leaf_trace(case, True), "uncached": leaf_trace(case, False)}
+        log_c, log_u = [], []
+        tc = leaf_trace(case, True, None, log_c)
+        return {"cached": tc, "uncached": leaf_trace(case, False, log_c, log_u)}
     if case["fam"] == "wfd":
         return {"cached": wfd_trace(case, True), "uncached": wfd_trace(case, False)}
     return {"cached": comp_trace(case, True), "uncached": comp_trace(case, False)}
@@ -409,8 +426,8 @@ def model_term(case):
         ks = cl(f"({cz(3 + 10 * i)}, {cz(v)})" for i, v in enumerate(case["init"]))
         ops = cl(_wop_coq(o) for o in case["ops"])
         return f"OL [{hits}; obs_wtrace true {ks} {ops}; obs_wtrace false {ks} {ops}]"
-    if case["fam"] != "leaf":
-        return None
+    if case["fam"] != "leaf" or any(op[0] == "cancel" for op in case["ops"]):
+        return None         # a withdrawn job is not an op of Cache.v: such histories are judged by the twin oracle
     return f"OL [{leaf_term(case, True)}; {leaf_term(case, False)}]"
 
 
@@ -495,7 +512,14 @@ def key(case):
 def shrink_candidates(case):
     ops = case["ops"]
     for i in range(len(ops)):
-        yield dict(case, ops=ops[:i] + ops[i + 1:])
+        if ops[i] == ["cancel"]:
+            yield dict(case, ops=ops[:i] + ops[i + 2:])      # a withdrawal goes together with the `complete` after it
+        elif ops[i] == ["complete"] and i and ops[i - 1] == ["cancel"]:
+            continue
+        elif ops[i][0] == "submit" and case["fam"] == "leaf":
+            continue                                          # keeps the in-flight bracketing of the history intact
+        else:
+            yield dict(case, ops=ops[:i] + ops[i + 1:])
 
 
 def distribution(results):
